@@ -19,7 +19,9 @@ LEVEL = ("containment mechanisms only (byte equality of two trees is a relation 
          "registries are written in place only by the frozen table of legitimate writers (everything else registers on an evolved "
          "copy); document-named output directories are rebuilt from empty; a property object that a step was handed (a parameter of a "
          "property type, an element of the registry) is written in place only by its initialiser or by process_model completing the "
-         "registered model after its last refusal; a local accumulator that holds recorded diagnostics is returned entire.")
+         "registered model after its last refusal; a local accumulator that holds recorded diagnostics is returned entire; what decides "
+         "about another round of a worklist loop is bound per item only monotonically; an error store is only ever poured on, never "
+         "tested, measured or read by a template.")
 
 CONTAIN_LOOPS = {
     "parser.openapi.EndpointCollection.from_data", "parser.openapi.Endpoint._add_responses", "parser.bodies.body_from_data",
@@ -59,6 +61,8 @@ def run(rep: Report, ctx: Any) -> str:
                       "and loop variables that come to hold it)")
 
     rep.rule("R08.11", PROPERTY_RULE_TEXT)
+    rep.rule("R08.14", FIXPOINT_RULE_TEXT)
+    rep.rule("R08.15", POUR_RULE_TEXT)
     rep.rule("R08.12", "the diagnostic of an omitted piece reaches the caller: where a parser function records diagnostics in a local "
                        "accumulator - an error value put into a container it created empty, or into a field declared as a list of errors "
                        "of an object it keeps in such a container - every return that hands the accumulator back hands it back entire: the "
@@ -134,32 +138,22 @@ def run(rep: Report, ctx: Any) -> str:
         state_vars = {v_ for v_ in THREADED if v_ in pnames} | set(Locals(f.node).bound_from(
             lambda t_: t_.startswith(("Schemas(", "Parameters(")), "assign"))
         for var in sorted(state_vars):
-            assigns = []
+            assigns: list[tuple[ast.Assign, ast.expr]] = []   # (statement, the value `var` is bound to: `a, b = x, y` binds a to x)
             for n in ast.walk(f.node):
                 if isinstance(n, ast.Assign):
                     for tg in n.targets:
                         names = [tg] if isinstance(tg, ast.Name) else (list(tg.elts) if isinstance(tg, ast.Tuple) else [])
-                        if any(isinstance(x, ast.Name) and x.id == var for x in names):
-                            assigns.append(n)
+                        paired = isinstance(tg, ast.Tuple) and isinstance(n.value, ast.Tuple) and len(n.value.elts) == len(tg.elts) and \
+                            not any(isinstance(x, ast.Starred) for x in [*tg.elts, *n.value.elts])
+                        for i, x in enumerate(names):
+                            if isinstance(x, ast.Name) and x.id == var:
+                                assigns.append((n, n.value.elts[i] if paired else n.value))
             if not assigns:
                 continue
             # names that hold results of steps which received the state
-            derived = {var}
-            changed = True
-            while changed:
-                changed = False
-                for n in ast.walk(f.node):
-                    if isinstance(n, (ast.Assign, ast.AnnAssign)) and n.value is not None:
-                        tgts = n.targets if isinstance(n, ast.Assign) else [n.target]
-                        if _takes(n.value, derived):
-                            for tg in tgts:
-                                for x in ([tg] if isinstance(tg, ast.Name) else (list(tg.elts) if isinstance(tg, ast.Tuple) else [])):
-                                    if isinstance(x, ast.Name) and x.id not in derived:
-                                        derived.add(x.id)
-                                        changed = True
-            for a in assigns:
+            derived = _derived(f.node, {var})
+            for a, v in assigns:
                 n_thr += 1
-                v = a.value
                 ok = _takes(v, derived) or (isinstance(v, ast.Call) and call_name(v).rsplit(".", 1)[-1] in ("Schemas", "Parameters")) or \
                     (isinstance(v, ast.Name) and v.id in derived and _result_name(f.node, v.id, var)) or \
                     (isinstance(v, ast.Attribute) and isinstance(v.value, ast.Name) and v.value.id in derived)
@@ -178,14 +172,19 @@ def run(rep: Report, ctx: Any) -> str:
         if not at:
             continue
         errs = error_names(f.node)
+        # the state as this function holds it: the threaded variable, and the locals bound to (an element of) the result of a step that
+        # received it - the same notion of `result of a step` by which the rebinding of the variable is judged above, so `schemas = new;
+        # return err, schemas` and `return err, new` are one decision
+        live = _derived(f.node, {"schemas"} | {p_.arg for p_ in f.params if p_.annotation is not None and "Schemas" in _type_names(p_.annotation)})
         for r in ast.walk(f.node):
             if isinstance(r, ast.Return) and isinstance(r.value, ast.Tuple) and len(r.value.elts) == len(parts) and returns_error(r, errs):
                 n_ret += 1
                 states = [r.value.elts[i] for i in at]
                 label = next((norm(e) for i, e in enumerate(r.value.elts) if i not in at), "")
-                rep.check(all(isinstance(s2, ast.Name) and s2.id == "schemas" for s2 in states), "R08.3", f"{short(f)}::error-return-state[{label[:30]}]",
-                          "an error is returned together with something other than the threaded `schemas` variable", where(f, r),
-                          lhs=[norm(s2) for s2 in states], rhs="schemas")
+                rep.check(all(isinstance(s2, ast.Name) and s2.id in live for s2 in states), "R08.3", f"{short(f)}::error-return-state[{label[:30]}]",
+                          "an error is returned together with something other than the threaded `schemas` state (the variable itself, or "
+                          "a local that holds the result of a step which received it)", where(f, r),
+                          lhs=[norm(s2) for s2 in states], rhs="schemas / <result of f(..., schemas=...)>")
     rep.floor("error_returns_with_state", n_ret, 16)
 
     # ---- R08.4 ----------------------------------------------------------------------------------------------------------------
@@ -203,6 +202,10 @@ def run(rep: Report, ctx: Any) -> str:
     _property_objects_not_written(rep, ctx)
     # ---- R08.12: recorded diagnostics are returned entire -----------------------------------------------------------------------------
     _diagnostics_returned_entire(rep, ix)
+    # ---- R08.14: the retry over rounds is not one item's to end ------------------------------------------------------------------------
+    _fixpoint_not_decided_by_one_item(rep, ctx)
+    # ---- R08.15: diagnostics do not steer generation -----------------------------------------------------------------------------------
+    _diagnostics_only_poured(rep, ctx)
     rep.not_decided += ["byte equality of the output trees with and without the bad piece"]
     return LEVEL
 
@@ -231,6 +234,25 @@ class _Under:
         return getattr(self._rep, name)
 
 
+class _UnderOnly(_Under):
+    """... and only those of its obligations whose construct key is wanted here (the others are that property's own business)"""
+
+    def __init__(self, rep: Report, rid: str, wanted: Any) -> None:
+        super().__init__(rep, rid)
+        self._wanted = wanted
+
+    def check(self, cond: bool, rule: str, construct: str, message: str, where: str = "", lhs: Any = None, rhs: Any = None, **facts: Any) -> bool:
+        return super().check(cond, rule, construct, message, where, lhs, rhs, **facts) if self._wanted(construct) else bool(cond)
+
+    def ok(self, rule: str, construct: str, lhs: Any = None, rhs: Any = None, nontrivial: bool = True) -> None:
+        if self._wanted(construct):
+            super().ok(rule, construct, lhs, rhs, nontrivial)
+
+    def fail(self, rule: str, construct: str, message: str, where: str = "", lhs: Any = None, rhs: Any = None, **facts: Any) -> None:
+        if self._wanted(construct):
+            super().fail(rule, construct, message, where, lhs, rhs, **facts)
+
+
 def _nothing_stale_remains(rep: Report, ctx: Any) -> None:
     """The pieces a run omits must not be in the output tree afterwards either - also when the tree held an earlier generation (the
     documented update workflow: regenerate in place after the document changed).  A module of an endpoint that is now omitted, left
@@ -243,6 +265,30 @@ def _nothing_stale_remains(rep: Report, ctx: Any) -> None:
     rule = getattr(c01, "_rebuilt_from_empty", None)
     rep.require(callable(rule), "the no-stale-module rule of C01 (c01._rebuilt_from_empty), which R08.10 evaluates")
     rule(_Under(rep, "R08.10"), ctx)
+
+
+FIXPOINT_RULE_TEXT = (
+    "the fixpoint over models is not one piece's to end: a worklist loop that re-queues the items it could not process yet (a model "
+    "whose allOf parent comes later in the document) runs another round as long as ANY item of the round got somewhere. What decides "
+    "about another round (what the `while` test reads, what the tests before a break / return of the round loop read - followed into "
+    "the private helpers of the round) is bound per item only monotonically: one constant, or a value accumulated from the variable "
+    "itself - never a value computed from the item alone, which lets the last item of a round decide and so lets a piece that can "
+    "never be processed take the retry away from the pieces that wait for it (they would be reported and removed with everything that "
+    "depends on them); and some per-item binding can move it away from what the round resets it to")
+
+
+def _fixpoint_not_decided_by_one_item(rep: Report, ctx: Any) -> None:
+    """The retry loop of _process_models is a containment mechanism of this property (the order of definition does not matter): were
+    the decision about another round one item's, an invalid schema at the right place of the document would end the retry, and every
+    model still waiting for its parent would be reported and removed with all that depends on it.  The structural necessary
+    condition is the one C12 states for worklist rounds (found by role, indifferent to flag / counter / `while True` + break, polarity
+    and to helpers), so it is evaluated by that rule's own implementation and reported here under this property's id."""
+    from . import c12
+
+    rule = getattr(c12, "_round_loops", None)
+    rep.require(callable(rule), "the worklist-round rule of C12 (c12._round_loops), which R08.14 evaluates")
+    # (what that rule says about the errors recorded with a re-queue - round-structure, round-errors - stays C12's own statement)
+    rule(_UnderOnly(rep, "R08.14", lambda key: "::round-progress" in key), ctx.py)
 
 
 def check_no_alias(rep: Report, ctx: Any, rid: str) -> None:
@@ -276,6 +322,24 @@ def _takes(v: ast.expr, names: set[str]) -> bool:
                 return True
         return False
     return False
+
+
+def _derived(fn: ast.AST, base: set[str]) -> set[str]:
+    """`base` and the locals bound to (an element of) the result of a call that received one of them (transitively)"""
+    derived = set(base)
+    changed = True
+    while changed:
+        changed = False
+        for n in ast.walk(fn):
+            if isinstance(n, (ast.Assign, ast.AnnAssign)) and n.value is not None:
+                tgts = n.targets if isinstance(n, ast.Assign) else [n.target]
+                if _takes(n.value, derived):
+                    for tg in tgts:
+                        for x in ([tg] if isinstance(tg, ast.Name) else (list(tg.elts) if isinstance(tg, ast.Tuple) else [])):
+                            if isinstance(x, ast.Name) and x.id not in derived:
+                                derived.add(x.id)
+                                changed = True
+    return derived
 
 
 def _result_name(fn: ast.AST, name: str, var: str) -> bool:
@@ -1486,3 +1550,210 @@ def _diagnostics_returned_entire(rep: Report, ix: Any) -> None:
                       "along - the piece is omitted and nothing says so", where(f, rets[-1] if rets else f.node),
                       lhs=sorted(set(reasons))[:4], rhs="the accumulator itself under any name, a whole copy, or a whole argument")
     rep.floor("diagnostic_accumulators_returned", n_inst, 1)
+
+
+# ---- R08.15: diagnostics do not steer generation --------------------------------------------------------------------------------------
+
+POUR_RULE_TEXT = (
+    "diagnostics do not steer generation: whether a bad piece was met is recorded in the error stores (the fields declared as "
+    "containers of error values: errors, parse_errors), and apart from the pieces that were removed that is all by which the run "
+    "with the bad piece differs from the run without it - so an error store is only ever poured. Every read of one (followed through "
+    "the locals it is bound to, the elements a loop or comprehension takes from it, and the parameters of the package's own functions "
+    "it is handed to) is: the receiver of an in-place put; a whole part (itself, splatted, concatenated, whole-copied) of what is put "
+    "into an error store or accumulator, bound to a keyword or field named like an error store, or returned; or the iterable of a loop "
+    "that annotates its elements and pours them on. It never is (part of) the test of a branch, measured, compared, indexed, formatted "
+    "or handed to anything else, and no template reads one: what is written for the pieces that remain cannot depend on it")
+
+MEASURES = {"len", "bool", "any", "all", "sum", "min", "max", "next", "isinstance", "str", "repr", "hash", "id"}
+
+
+def _leaf_stmts(body: list[ast.stmt]) -> Any:
+    """the simple statements of a block, through the compound statements that hold them (not into nested definitions)"""
+    for st in body:
+        if isinstance(st, (ast.FunctionDef, ast.AsyncFunctionDef, ast.ClassDef)):
+            continue
+        subs = [getattr(st, fld) for fld in ("body", "orelse", "finalbody") if isinstance(getattr(st, fld, None), list)]
+        subs += [h.body for h in getattr(st, "handlers", None) or []] + [c.body for c in getattr(st, "cases", None) or []]
+        if subs and not isinstance(st, (ast.Expr, ast.Assign)):
+            for b in subs:
+                yield from _leaf_stmts(b)
+        else:
+            yield st
+
+
+class _Pour:
+    """Follows the value of an error store through one function (and into the package's functions it is handed to) and says how it is
+    used when that is anything but pouring it on."""
+
+    def __init__(self, ix: Any, stores: set[str]) -> None:
+        self.ix = ix
+        self.stores = stores
+        self.parents: dict[str, dict[int, ast.AST]] = {}
+        self.busy: set[tuple[str, str]] = set()
+
+    def parent(self, f: FuncInfo) -> dict[int, ast.AST]:
+        if f.qual not in self.parents:
+            self.parents[f.qual] = {id(c): n for n in ast.walk(f.node) for c in ast.iter_child_nodes(n)}
+        return self.parents[f.qual]
+
+    def is_store(self, e: ast.AST | None) -> bool:
+        return isinstance(e, ast.Attribute) and e.attr in self.stores
+
+    def local(self, f: FuncInfo, name: str, depth: int) -> str | None:
+        """every read of the local / parameter `name` of f pours"""
+        if (f.qual, name) in self.busy or depth > 6:
+            return None
+        self.busy.add((f.qual, name))
+        try:
+            for n in _own_nodes(f.node):
+                if isinstance(n, ast.Name) and n.id == name and isinstance(n.ctx, ast.Load):
+                    why = self.fate(f, n, depth + 1)
+                    if why is not None:
+                        return why
+            return None
+        finally:
+            self.busy.discard((f.qual, name))
+
+    def elements(self, f: FuncInfo, target: ast.AST, body: list[ast.stmt], depth: int) -> str | None:
+        """a loop over the store: each statement of its body annotates the element, pours it on, or only computes locals"""
+        elem = names_in(target)
+        par = self.parent(f)
+        for st in _leaf_stmts(body):
+            if isinstance(st, (ast.Continue, ast.Pass, ast.Break)):
+                continue
+            tgts = st.targets if isinstance(st, ast.Assign) else [st.target] if isinstance(st, (ast.AnnAssign, ast.AugAssign)) else []
+            if tgts and all(isinstance(t, ast.Name) or (isinstance(t, (ast.Attribute, ast.Subscript)) and _root_name(t) in elem) for t in tgts):
+                continue   # a local is computed / the element is annotated
+            if not (names_in(st) & elem):
+                return f"`{norm(st)[:50]}` (line {st.lineno}) is executed once per recorded diagnostic"
+        for n in [n for st in body for n in ast.walk(st)]:
+            if isinstance(n, ast.Name) and n.id in elem and isinstance(n.ctx, ast.Load) and not isinstance(par.get(id(n)), ast.Attribute):
+                why = self.fate(f, n, depth + 1)
+                if why is not None:
+                    return why
+        return None
+
+    def fate(self, f: FuncInfo, node: ast.AST, depth: int = 0) -> str | None:
+        """None: the value of `node` (an error store, or what holds its entries) is poured on; otherwise what is done with it"""
+        par = self.parent(f)
+        p = par.get(id(node))
+        if p is None or depth > 12:
+            return None
+        up = lambda: self.fate(f, p, depth + 1)  # noqa: E731
+        at = f"(line {getattr(node, 'lineno', '?')})"
+        if isinstance(p, ast.Attribute):
+            gp = par.get(id(p))
+            if isinstance(gp, ast.Call) and gp.func is p:
+                if p.attr in PUTS:
+                    return None
+                if p.attr == "copy":
+                    return self.fate(f, gp, depth + 1)
+                return f"`.{p.attr}()` of it {at}"
+            return f"`.{p.attr}` of it is read {at}"
+        if isinstance(p, ast.keyword):
+            if p.arg in self.stores:
+                return None
+            return self.argument(f, par.get(id(p)), node, p.arg, depth, at)
+        if isinstance(p, ast.Call):
+            return self.argument(f, p, node, None, depth, at)
+        if isinstance(p, (ast.Starred, ast.List, ast.Tuple, ast.Set, ast.Await, ast.BoolOp)) or (isinstance(p, ast.BinOp) and isinstance(p.op, ast.Add)):
+            return up()
+        if isinstance(p, ast.IfExp):
+            return f"it decides `{norm(p)[:60]}` {at}" if p.test is node else up()
+        if isinstance(p, (ast.Return, ast.Yield, ast.YieldFrom, ast.Expr)):
+            return None
+        if isinstance(p, ast.NamedExpr):
+            return self.local(f, p.target.id, depth) or up()
+        if isinstance(p, (ast.Assign, ast.AnnAssign, ast.AugAssign)) and p.value is node:
+            for t in (p.targets if isinstance(p, ast.Assign) else [p.target]):
+                if isinstance(t, ast.Name):
+                    why = self.local(f, t.id, depth)
+                    if why is not None:
+                        return why
+                elif not self.is_store(t):
+                    return f"stored into `{norm(t)[:40]}` {at}"
+            return None
+        if isinstance(p, (ast.For, ast.AsyncFor)) and p.iter is node:
+            return self.elements(f, p.target, p.body, depth)
+        if isinstance(p, ast.comprehension) and p.iter is node:
+            comp = par.get(id(p))
+            elem = names_in(p.target)
+            kept = names_in(comp.value) | names_in(comp.key) if isinstance(comp, ast.DictComp) else names_in(getattr(comp, "elt", None))
+            if not (kept & elem):
+                return f"`{norm(comp)[:60]}` is computed once per recorded diagnostic {at}"
+            return self.fate(f, comp, depth + 1) if comp is not None else None
+        if isinstance(p, (ast.If, ast.While, ast.Assert)) and p.test is node:
+            return f"it decides `{norm(p.test)[:60]}` {at}"
+        if isinstance(p, (ast.Compare, ast.UnaryOp)):
+            return f"it decides `{norm(p)[:60]}` {at}"
+        if isinstance(p, ast.Subscript):
+            return f"an entry of it is taken: `{norm(p)[:50]}` {at}"
+        if isinstance(p, (ast.FormattedValue, ast.JoinedStr)):
+            return f"it is formatted into text {at}"
+        return f"it is used in `{norm(p)[:60]}` {at}"
+
+    def argument(self, f: FuncInfo, c: ast.AST | None, node: ast.AST, kw: str | None, depth: int, at: str) -> str | None:
+        if not isinstance(c, ast.Call):
+            return None
+        last = call_name(c).rsplit(".", 1)[-1]
+        if isinstance(c.func, ast.Attribute) and c.func.attr in PUTS:
+            recv = c.func.value
+            if self.is_store(recv) or isinstance(recv, ast.Name):
+                return None
+            return f"it is put into `{norm(recv)[:40]}` {at}"
+        if last in (WHOLE_COPIES | {"chain"}) - {"cast"} or (last == "cast" and c.args and c.args[-1] is node):
+            return self.fate(f, c, depth + 1)
+        if last in MEASURES:
+            return f"it decides `{norm(c)[:60]}` {at}"
+        g = _callee(self.ix, f, c)
+        if g is not None and g.module.name.startswith("openapi_python_client"):
+            a = g.node.args
+            pos = [x.arg for x in [*a.posonlyargs, *a.args]]
+            if g.cls is not None and g.kind in ("method", "classmethod") and pos and not (isinstance(c.func, ast.Name)):
+                pos = pos[1:]
+            name = kw if kw is not None else next((pos[i] for i, x in enumerate(c.args) if x is node and i < len(pos)), None)
+            if name is not None and name in {x.arg for x in [*a.posonlyargs, *a.args, *a.kwonlyargs]}:
+                why = self.local(g, name, depth + 1)
+                return None if why is None else f"{short(g)}: {why}"
+        return f"it is handed to `{last}(...)` {at}"
+
+
+def _diagnostics_only_poured(rep: Report, ctx: Any) -> None:
+    ix = ctx.py
+    stores = _error_stores(ix)
+    rep.require(stores, "fields declared as containers of error values (e.g. parse_errors: list[ParseError])")
+    pour = _Pour(ix, stores)
+    n_reads = 0
+    for f in ix.all_functions:
+        reads: dict[str, list[ast.Attribute]] = {}
+        lcs = Locals(f.node)
+        params = {p_.arg: None for p_ in f.params}
+        called = {id(c.func) for c in _own_nodes(f.node) if isinstance(c, ast.Call)}
+        for n in _own_nodes(f.node):
+            if isinstance(n, ast.Attribute) and n.attr in stores and isinstance(n.ctx, ast.Load) and id(n) not in called:   # (x.errors(): a method)
+                r = ix.resolve(f.module, dotted(n)) if dotted(n) and isinstance(_root_name(n), str) and _root_name(n) not in lcs.defs | params else None
+                if r is not None and r[0] in ("module", "ext", "class", "func"):
+                    continue   # <package>.errors: a module of that name, not a field
+                reads.setdefault(n.attr, []).append(n)
+        for store, nodes in sorted(reads.items()):
+            n_reads += len(nodes)
+            whys = [(n, w) for n in nodes for w in [pour.fate(f, n)] if w is not None]
+            rep.check(not whys, "R08.15", f"{short(f)}::diagnostics-only-poured[{store}]",
+                      f"the error store `{store}` is not just poured on ({'; '.join(w for _, w in whys)[:240]}): whether a bad piece was met "
+                      "anywhere in the document then decides about what is generated for pieces that have nothing to do with it",
+                      where(f, whys[0][0] if whys else f.node), lhs=[w for _, w in whys][:4],
+                      rhs="put into / returned / bound to an error store, whole or element by element")
+    rep.floor("error_store_reads", n_reads, 8)
+    # templates: no read of an error store at all
+    try:
+        from jinja2 import nodes as jn
+    except Exception:  # pragma: no cover
+        jn = None
+    if jn is not None:
+        for name, t in sorted(ctx.jinja.templates.items()):
+            got = sorted({g.attr for g in t.tree.find_all(jn.Getattr) if g.attr in stores and g.attr != "errors"} |
+                         {g.attr for g in t.tree.find_all(jn.Getattr) if g.attr == "errors" and not isinstance(g.node, jn.Name)})
+            if got:
+                rep.fail("R08.15", f"template {name}::reads-diagnostics[{', '.join(got)}]",
+                         "a template reads an error store: the text of a generated module depends on whether a bad piece was met", name,
+                         lhs=got, rhs="no read of errors / parse_errors in a template")
